@@ -107,6 +107,14 @@ def regen_consts():
         values["context_switch_translation"] = "ok (%d lines)" % gen.count("\n")
     except (xlate_cs.XlateError, OSError, IndexError, ValueError) as ex:
         values.setdefault("_errors", {})["context_switch_translation"] = "samply/src/shared/context_switch.rs: %s" % ex
+    # the third translator: samply/src/shared/stack_depth_limiting_frame_iter.rs -> Generated/FrameLimitGen.v (C14), same rules
+    import xlate_fl
+    try:
+        gen = xlate_fl.generate(open(os.path.join(REPO, "samply", "src", "shared", "stack_depth_limiting_frame_iter.rs")).read())
+        write_if_changed(os.path.join(COQ, "Generated", "FrameLimitGen.v"), gen)
+        values["frame_limit_translation"] = "ok (%d lines)" % gen.count("\n")
+    except (xlate_fl.XlateError, OSError, IndexError, ValueError, KeyError, TypeError) as ex:
+        values.setdefault("_errors", {})["frame_limit_translation"] = "samply/src/shared/stack_depth_limiting_frame_iter.rs: %s" % ex
     return True, "", values
 
 
